@@ -110,6 +110,8 @@ class SnapshotActionContext(FrameCollectorContext, ActionContext):
     def _process_action(self):
         # every snapshot owns its variable table and identity cache, tracepoints sharing a trace event stay independent
         self.var_cache = VariableCacheProvider()
+        # the watches, log expressions and captured values are part of the snapshot, so they keep to the same limits
+        self.variable_config = self.collection_config
         collector = FrameCollector(self, self.trigger_context.frame)
 
         frames, variables = collector.collect({}, self.var_cache)
@@ -130,6 +132,7 @@ class SnapshotActionContext(FrameCollectorContext, ActionContext):
                 LOG_MSG: log_msg,
             }, LocationAction.ActionType.Log))
             context.var_cache = self.var_cache
+            context.variable_config = self.variable_config
             log, watches, log_vars = context.process_log(log_msg)
             snapshot.log_msg = log
             for watch in watches:
